@@ -1983,24 +1983,10 @@ class ExpressionEvaluator(Parser):
                     base = 8
 
             # Strip suffix (if present)
-            suffix = None
-            suffixes = [
-                "ull",
-                "ULL",
-                "ul",
-                "UL",
-                "ll",
-                "LL",
-                "u",
-                "U",
-                "l",
-                "L",
-            ]
-            for s in suffixes:
-                if value.endswith(s):
-                    suffix = s
-                    value = value[: -len(s)]
-                    break
+            # u/U and l/L/ll/LL may appear in either order and any case.
+            stripped = value.rstrip("uUlL")
+            suffix = value[len(stripped) :]
+            value = stripped
 
             # Convert to decimal and then to integer with correct sign
             # Preprocessor always uses 64-bit arithmetic!
